@@ -178,9 +178,9 @@ Definition known_len (sh : shell) (r : pref) : bool :=
   nounset sh && match r, var sh with RAll _, VNone => true | _, _ => false end.
 
 Theorem length_repaired_eq_spec : forall sh r, known_len sh r = false ->
-  parameter_length' sh r = length_spec sh r.
+  parameter_length sh r = length_spec sh r.
 Proof.
-  intros sh r Hk. unfold parameter_length', parameter_length_with, length_spec.
+  intros sh r Hk. unfold parameter_length, parameter_length_with, length_spec.
   destruct r as [|i|c|n|c].
   - rewrite expand_scalar by reflexivity. destruct (words sh RNamed) as [l|] eqn:W.
     + reflexivity.
@@ -188,7 +188,7 @@ Proof.
   - rewrite expand_scalar by reflexivity. destruct (words sh (RIndex i)) as [l|] eqn:W.
     + reflexivity.
     + unfold undefined_expansion. destruct (var_exists sh), (nounset sh); reflexivity.
-  - rewrite expand_list by reflexivity. unfold polymorphic_len'; cbn [from_array fields].
+  - rewrite expand_list by reflexivity. unfold polymorphic_len; cbn [from_array fields].
     unfold known_len in Hk. cbn [words].
     destruct (var sh) as [| |s|l|l]; cbn in *.
     + rewrite andb_true_r in Hk. rewrite Hk. reflexivity.
@@ -199,18 +199,18 @@ Proof.
   - rewrite expand_scalar by reflexivity. destruct (words sh (RPos n)) as [l|] eqn:W.
     + reflexivity.
     + unfold undefined_expansion. cbn [orb]. destruct (nounset sh); reflexivity.
-  - rewrite expand_list by reflexivity. unfold polymorphic_len'; cbn [from_array fields words].
+  - rewrite expand_list by reflexivity. unfold polymorphic_len; cbn [from_array fields words].
     destruct (args sh); reflexivity.
 Qed.
 
 (** length_chars: the characters of a scalar word, the number of words of a list. *)
 Theorem length_chars : forall sh r,
-  (forall w, is_list r = false -> words sh r = Some [w] -> parameter_length' sh r = Ok (length w)) /\
-  (forall l, is_list r = true -> words sh r = Some l -> parameter_length' sh r = Ok (length l)).
+  (forall w, is_list r = false -> words sh r = Some [w] -> parameter_length sh r = Ok (length w)) /\
+  (forall l, is_list r = true -> words sh r = Some l -> parameter_length sh r = Ok (length l)).
 Proof.
   intros sh r. split.
-  - intros w Hl W. unfold parameter_length', parameter_length_with. rewrite expand_scalar, W by assumption. reflexivity.
-  - intros l Hl W. unfold parameter_length', parameter_length_with. rewrite expand_list, W by assumption. reflexivity.
+  - intros w Hl W. unfold parameter_length, parameter_length_with. rewrite expand_scalar, W by assumption. reflexivity.
+  - intros l Hl W. unfold parameter_length, parameter_length_with. rewrite expand_list, W by assumption. reflexivity.
 Qed.
 
 Definition ascii (s : str) : bool := forallb (fun c => (c <? 128)%N) s.
@@ -227,21 +227,21 @@ Qed.
     a scalar word with a non-ASCII character). *)
 Theorem length_outside_known : forall sh r,
   (forall w, is_list r = false -> words sh r = Some [w] -> ascii w = true) ->
-  parameter_length sh r = parameter_length' sh r.
+  parameter_length_old sh r = parameter_length sh r.
 Proof.
-  intros sh r H. unfold parameter_length, parameter_length', parameter_length_with.
+  intros sh r H. unfold parameter_length_old, parameter_length, parameter_length_with.
   destruct (is_list r) eqn:Hl.
   - rewrite expand_list by assumption. reflexivity.
   - rewrite expand_scalar by assumption. destruct (words sh r) as [l|] eqn:W.
     + destruct (words_scalar_single _ _ _ Hl W) as [a ->]. cbn [join_with].
-      unfold polymorphic_len, polymorphic_len', of_string; cbn [from_array fields].
+      unfold polymorphic_len_old, polymorphic_len, of_string; cbn [from_array fields].
       rewrite !fold_len_single. rewrite byte_len_ascii; [reflexivity|]. apply H; reflexivity.
     + unfold undefined_expansion. destruct (_ || negb (nounset sh)); reflexivity.
 Qed.
 
 Definition sh_scalar (s : str) : shell := {| var := VStr s; args := []; nounset := false; shell_name := [] |}.
 
-Theorem length_refuted : exists sh r, parameter_length sh r <> length_spec sh r.
+Theorem length_refuted : exists sh r, parameter_length_old sh r <> length_spec sh r.
 Proof. exists (sh_scalar [233%N]), RNamed. vm_compute. discriminate. Qed.
 
 (** * Substring *)
@@ -249,14 +249,14 @@ Definition kind_rel (k : pkind) (k' : skind) : Prop :=
   match k, k' with PScalar, KScalar | PArray, KArray | PArgs, KArgs => True | _, _ => False end.
 
 Lemma bounds_rel k k' n off olen : 0 <= n -> kind_rel k k' ->
-  match substring_bounds' k n off olen, bash_bounds k' n off olen with
+  match substring_bounds k n off olen, bash_bounds k' n off olen with
   | Some (a, b), Empty => a = n /\ b = n
   | Some (a, b), Range a' b' => a = a' /\ b = b' /\ 0 <= a /\ a <= b /\ b <= n
   | None, BadLength => True
   | _, _ => False
   end.
 Proof.
-  intros Hn Hk. unfold substring_bounds', bash_bounds.
+  intros Hn Hk. unfold substring_bounds, bash_bounds.
   destruct olen as [l|]; destruct k, k'; try contradiction; clear Hk;
   repeat (match goal with
           | |- context [?a <? ?b] => destruct (Z.ltb_spec a b)
@@ -281,7 +281,7 @@ Qed.
 (** the size assumption under which [usize]/[i64] arithmetic of the arm is exact *)
 Definition fits (sh : shell) (r : pref) : Prop :=
   forall e0, expand_parameter sh r false = Ok e0 ->
-  Z.of_nat (polymorphic_len' (with_shell_name sh r e0)) < two64.
+  Z.of_nat (polymorphic_len (with_shell_name sh r e0)) < two64.
 
 Definition list_words (sh : shell) (r : pref) : list str :=
   match r with RArgs _ => shell_name sh :: args sh | _ => elems (var sh) end.
@@ -316,23 +316,23 @@ Proof. destruct r as [| |c| |c]; try discriminate; destruct c; reflexivity. Qed.
 
 (** ** substring_bounds_eq_bash (repaired arm) *)
 Theorem substring_repaired_eq_spec : forall sh r off olen, fits sh r ->
-  obs (substring' sh r off olen) = substring_spec sh r off olen.
+  obs (substring sh r off olen) = substring_spec sh r off olen.
 Proof.
-  intros sh r off olen Hfit. unfold substring'.
+  intros sh r off olen Hfit. unfold substring.
   destruct (is_list r) eqn:Hl.
   - (* lists *)
     rewrite substring_spec_is_list by assumption. unfold substring_spec_list.
     pose proof (expand_list sh r false Hl) as He. specialize (Hfit _ He). rewrite He.
     rewrite with_name_list in * by assumption.
     set (ws := list_words sh r) in *.
-    unfold polymorphic_len' in *. cbn [undefined fields orb from_array] in *.
+    unfold polymorphic_len in *. cbn [undefined fields orb from_array] in *.
     destruct (is_nil ws) eqn:Hnil.
     + cbn [obs]. rewrite dq_list by assumption. destruct ws; [reflexivity|discriminate].
     + set (k := if is_args r then PArgs else PArray).
       set (k' := match r with RArgs _ => KArgs | _ => KArray end).
       assert (Hk : kind_rel k k') by (unfold k, k'; destruct r; try discriminate; exact I).
       pose proof (bounds_rel k k' (Z.of_nat (length ws)) off olen ltac:(lia) Hk) as Hb.
-      destruct (substring_bounds' k _ off olen) as [[a b]|], (bash_bounds k' _ off olen) as [|a' b'|];
+      destruct (substring_bounds k _ off olen) as [[a b]|], (bash_bounds k' _ off olen) as [|a' b'|];
         try contradiction; try reflexivity.
       * destruct Hb as [-> ->]. unfold polymorphic_subslice. rewrite !as_usize_small by lia.
         rewrite Z.ltb_irrefl. cbn [from_array fields].
@@ -353,10 +353,10 @@ Proof.
       specialize (Hfit _ He).
       assert (Hna : with_shell_name sh r (of_string w) = of_string w) by (destruct r; try discriminate; reflexivity).
       rewrite Hna in *. cbn [undefined of_string fields is_nil orb from_array].
-      assert (Hlen : polymorphic_len' (of_string w) = length w) by reflexivity. rewrite Hlen in *.
+      assert (Hlen : polymorphic_len (of_string w) = length w) by reflexivity. rewrite Hlen in *.
       assert (Hia : is_args r = false) by (destruct r; try discriminate; reflexivity). rewrite Hia.
       pose proof (bounds_rel PScalar KScalar (Z.of_nat (length w)) off olen ltac:(lia) I) as Hb.
-      destruct (substring_bounds' PScalar _ off olen) as [[a b]|], (bash_bounds KScalar _ off olen) as [|a' b'|]; try contradiction; try reflexivity.
+      destruct (substring_bounds PScalar _ off olen) as [[a b]|], (bash_bounds KScalar _ off olen) as [|a' b'|]; try contradiction; try reflexivity.
       * destruct Hb as [-> ->]. unfold polymorphic_subslice. rewrite !as_usize_small by lia.
         rewrite Z.ltb_irrefl. cbn [from_array of_string obs]. f_equal. f_equal. unfold dq_args; cbn [concatenate with_fields of_string fields].
         rewrite Z.sub_diag. cbn. reflexivity.
@@ -378,7 +378,7 @@ Proof.
 Qed.
 
 (** substring_no_panic (repaired arm): no operand makes the arm panic. *)
-Theorem substring_no_panic : forall sh r off olen, fits sh r -> substring' sh r off olen <> Panic.
+Theorem substring_no_panic : forall sh r off olen, fits sh r -> substring sh r off olen <> Panic.
 Proof.
   intros sh r off olen Hf H. pose proof (substring_repaired_eq_spec sh r off olen Hf) as E.
   rewrite H in E. cbn [obs] in E. symmetry in E. exact (substring_spec_not_panic _ _ _ _ E).
@@ -387,7 +387,7 @@ Qed.
 (** ** The unchanged arm outside the known classes (KF-C06-substring-negative-length: a negative
     length; KF-C06-substring-bytes: a scalar word with a non-ASCII character). *)
 Lemma cur_bounds_rel k' n off olen : 0 <= n -> (forall l, olen = Some l -> 0 <= l) ->
-  let '(a, b) := substring_bounds n off olen in
+  let '(a, b) := substring_bounds_old n off olen in
   0 <= a /\ a <= b /\ b <= n /\
   match bash_bounds k' n off olen with
   | Empty => a = b
@@ -395,7 +395,7 @@ Lemma cur_bounds_rel k' n off olen : 0 <= n -> (forall l, olen = Some l -> 0 <= 
   | BadLength => False
   end.
 Proof.
-  intros Hn Hl. unfold substring_bounds, bash_bounds.
+  intros Hn Hl. unfold substring_bounds_old, bash_bounds.
   destruct olen as [l|]; [specialize (Hl l eq_refl)|]; destruct k';
   repeat (match goal with
           | |- context [?a <? ?b] => destruct (Z.ltb_spec a b)
@@ -410,18 +410,18 @@ Proof. unfold slice. rewrite Z.sub_diag. reflexivity. Qed.
 Theorem substring_outside_known : forall sh r off olen, fits sh r ->
   (forall l, olen = Some l -> 0 <= l) ->
   (forall w, is_list r = false -> words sh r = Some [w] -> ascii w = true) ->
-  obs (substring sh r off olen) = substring_spec sh r off olen.
+  obs (substring_old sh r off olen) = substring_spec sh r off olen.
 Proof.
-  intros sh r off olen Hfit Hpos Hasc. unfold substring.
+  intros sh r off olen Hfit Hpos Hasc. unfold substring_old.
   destruct (is_list r) eqn:Hl.
   - rewrite substring_spec_is_list by assumption. unfold substring_spec_list.
     pose proof (expand_list sh r false Hl) as He. specialize (Hfit _ He). rewrite He.
     rewrite with_name_list in * by assumption.
     set (ws := list_words sh r) in *.
-    unfold polymorphic_len, polymorphic_len' in *. cbn [fields from_array] in *.
+    unfold polymorphic_len_old, polymorphic_len in *. cbn [fields from_array] in *.
     set (k' := match r with RArgs _ => KArgs | _ => KArray end).
     pose proof (cur_bounds_rel k' (Z.of_nat (length ws)) off olen ltac:(lia) Hpos) as Hb.
-    destruct (substring_bounds _ off olen) as [a b]. destruct Hb as (H0 & Hab & Hbn & Hb).
+    destruct (substring_bounds_old _ off olen) as [a b]. destruct Hb as (H0 & Hab & Hbn & Hb).
     unfold polymorphic_subslice. rewrite !as_usize_small by lia.
     destruct (Z.ltb_spec b a); [lia|]. cbn [from_array fields].
     destruct (Z.ltb_spec (Z.of_nat (length ws)) a); [lia|].
@@ -440,12 +440,12 @@ Proof.
       specialize (Hfit _ He). specialize (Hasc w eq_refl eq_refl).
       assert (Hna : with_shell_name sh r (of_string w) = of_string w) by (destruct r; try discriminate; reflexivity).
       rewrite Hna in *.
-      assert (Hlen' : polymorphic_len' (of_string w) = length w) by reflexivity. rewrite Hlen' in *.
-      assert (Hlen : polymorphic_len (of_string w) = length w).
-      { unfold polymorphic_len, of_string; cbn [from_array fields]. rewrite fold_len_single. apply byte_len_ascii; assumption. }
+      assert (Hlen' : polymorphic_len (of_string w) = length w) by reflexivity. rewrite Hlen' in *.
+      assert (Hlen : polymorphic_len_old (of_string w) = length w).
+      { unfold polymorphic_len_old, of_string; cbn [from_array fields]. rewrite fold_len_single. apply byte_len_ascii; assumption. }
       rewrite Hlen.
       pose proof (cur_bounds_rel KScalar (Z.of_nat (length w)) off olen ltac:(lia) Hpos) as Hb.
-      destruct (substring_bounds _ off olen) as [a b]. destruct Hb as (H0 & Hab & Hbn & Hb).
+      destruct (substring_bounds_old _ off olen) as [a b]. destruct Hb as (H0 & Hab & Hbn & Hb).
       unfold polymorphic_subslice. rewrite !as_usize_small by lia.
       destruct (Z.ltb_spec b a); [lia|]. cbn [from_array of_string obs]. 
       unfold dq_args; cbn [concatenate with_fields of_string fields]. rewrite sub_fields_single by lia.
@@ -455,22 +455,22 @@ Proof.
       * destruct Hb as [[-> ->]|[-> ->]]; [reflexivity|]. rewrite !slice_empty. reflexivity.
     + unfold undefined_expansion. cbn [orb]. destruct (nounset sh); cbn [negb]; [reflexivity|].
       assert (Hna : with_shell_name sh r undefined_exp = undefined_exp) by (destruct r; try discriminate; reflexivity).
-      rewrite Hna. change (polymorphic_len undefined_exp) with 0%nat. cbn [Z.of_nat].
+      rewrite Hna. change (polymorphic_len_old undefined_exp) with 0%nat. cbn [Z.of_nat].
       pose proof (cur_bounds_rel KScalar 0 off olen ltac:(lia) Hpos) as Hb.
-      destruct (substring_bounds 0 off olen) as [a b]. destruct Hb as (H0 & Hab & Hbn & _).
+      destruct (substring_bounds_old 0 off olen) as [a b]. destruct Hb as (H0 & Hab & Hbn & _).
       assert (a = 0) by lia. assert (b = 0) by lia. subst. reflexivity.
 Qed.
 
 (** On the unchanged tree [${x:2:-5}] with x=abcd panics ([end - index] on [usize]). *)
 Definition abcd : str := [97; 98; 99; 100]%N.
-Theorem substring_refuted : exists sh r off olen, substring sh r off olen = Panic.
+Theorem substring_refuted : exists sh r off olen, substring_old sh r off olen = Panic.
 Proof. exists (sh_scalar abcd), RNamed, 2, (Some (-5)). vm_compute. reflexivity. Qed.
 
 (** … and a negative length that does not panic selects the wrong end: [${x:2:-3}] of
     abcdefgh is cde; the unchanged arm yields cdefg. *)
 Definition abcdefgh : str := [97; 98; 99; 100; 101; 102; 103; 104]%N.
 Theorem substring_negative_length_refuted :
-  obs (substring (sh_scalar abcdefgh) RNamed 2 (Some (-3))) <> substring_spec (sh_scalar abcdefgh) RNamed 2 (Some (-3)).
+  obs (substring_old (sh_scalar abcdefgh) RNamed 2 (Some (-3))) <> substring_spec (sh_scalar abcdefgh) RNamed 2 (Some (-3)).
 Proof. vm_compute. discriminate. Qed.
 
 (** * Removal through [transform_expansion] *)
@@ -532,6 +532,17 @@ Qed.
 (** * Keys *)
 Theorem member_keys_eq_spec : forall sh c, dq_args (member_keys sh c) = keys_spec sh c.
 Proof. intros sh c. unfold member_keys, keys_spec, dq_args. destruct (var sh), c; reflexivity. Qed.
+
+(** * Regression examples on the model of the code as it is now (after 0a1f494, ce50a75, 68104b7, 1f6bbbf). *)
+Definition e_acute : str := [233%N].
+Theorem regression_examples :
+  remove_smallest_prefix m_star abc = abc /\ remove_smallest_suffix m_star abc = abc /\
+  parameter_length (sh_scalar e_acute) RNamed = Ok 1%nat /\
+  substring (sh_scalar abcd) RNamed 2 (Some (-5)) = Fail /\
+  obs (substring (sh_scalar abcdefgh) RNamed 2 (Some (-3))) = Ok ([[99; 100; 101]%N], None) /\
+  substring_ev (sh_scalar abc) RNamed {| oval := 5; oerr := false; oinc := 0 |} (Some {| oval := 0; oerr := true; oinc := 1 |})
+    = (Ok {| fields := []; concatenate := true; from_array := false; undefined := false |}, 0).
+Proof. vm_compute. repeat split; reflexivity. Qed.
 
 (** * Non-vacuity: the hypotheses of the theorems above hold of ordinary states. *)
 Definition sh_array : shell :=
